@@ -111,10 +111,20 @@ func (e *Exec) callVal(s *State, cc *ssa.CallCommon, args []Val, setRes func(*St
 			s.calls = append(s.calls, cc.Method.FullName())
 		} else if sc := cc.StaticCallee(); sc != nil {
 			s.calls = append(s.calls, sc.String())
+		} else if u, ok := cc.Value.(*ssa.UnOp); ok {
+			// a call through a function-typed local or parameter: logged under the variable's name
+			if al, ok := u.X.(*ssa.Alloc); ok && al.Comment != "" {
+				s.calls = append(s.calls, "dyncall "+al.Comment)
+			}
+		} else if p, ok := cc.Value.(*ssa.Parameter); ok {
+			s.calls = append(s.calls, "dyncall "+p.Name())
 		}
 	}
 	sig := cc.Signature()
 	rt := resultType(sig)
+	prevSig := e.curCallSig
+	e.curCallSig = sig
+	defer func() { e.curCallSig = prevSig }()
 	unknown := func(why string, havoc bool) bool {
 		for _, a := range args {
 			e.escape(s, a)
@@ -176,6 +186,14 @@ func (e *Exec) callVal(s *State, cc *ssa.CallCommon, args []Val, setRes func(*St
 			e.note("pure(assumed)", why)
 		}
 		res := e.symbolicResult(s, rt, "ret")
+		if why == "time.Now" {
+			// the current time is not the zero time (model assumption)
+			e.note("model(assumed)", "time.Now")
+			terms, sorts := e.leaves(rt, res)
+			z := "|ext." + sanitize("(time.Time).IsZero") + "|"
+			e.decl(fmt.Sprintf("(declare-fun %s (%s) Bool)", z, strings.Join(sorts, " ")))
+			s.assume("(not %s)", app(z, terms...))
+		}
 		// constructors of the repository's status errors (pkg/errors) and connect.NewError never return nil
 		if strings.Contains(why, "yorkie/pkg/errors") || strings.HasSuffix(why, "connectrpc.com/connect.NewError") {
 			if ag, ok := res.(*Agg); ok && isErrorIface(sig.Results().At(0).Type()) {
@@ -297,6 +315,9 @@ func (e *Exec) callVal(s *State, cc *ssa.CallCommon, args []Val, setRes func(*St
 		// in a function verified with abstracted callees, bodies of other packages are not pulled in (their safety
 		// obligations would need those packages' representation invariants); same-package helpers still are
 		autoInline = false
+	}
+	if autoInline && e.con != nil && e.con.AbstractAll {
+		autoInline = false // abstract-all: only the callees named by call-inline are read
 	}
 	if closure != nil || forceInline || autoInline {
 		if len(e.frames) >= 6 {
@@ -792,7 +813,7 @@ func (e *Exec) havocModSet(s, pre *State, m *modSet) {
 // ---------- contract application ----------
 
 func (e *Exec) contractEnv(con *Contract, cur, old *State, args []Val) *SpecEnv {
-	env := &SpecEnv{e: e, cur: cur, old: old, vars: map[string]TV{}, pkg: con.Pkg, bound: map[string]bool{}}
+	env := &SpecEnv{e: e, cur: cur, old: old, vars: map[string]TV{}, pkg: con.Pkg, bound: map[string]bool{}, foreign: true}
 	for i, n := range con.Params {
 		if i < len(args) {
 			env.vars[n] = TV{args[i], con.ParamTypes[i]}
@@ -868,7 +889,11 @@ func (e *Exec) applyContract(s *State, con *Contract, args []Val, setRes func(*S
 		e.allocGrow(s)
 	}
 	e.havocModSet(s, pre, ms)
-	res := e.symbolicResult(s, resultType(con.Sig), "r_"+sanitize(con.TFn.Name()))
+	rsig := con.Sig
+	if cs := e.curCallSig; cs != nil && cs.Results().Len() == con.Sig.Results().Len() && hasTypeParam(con.Sig.Results()) {
+		rsig = cs // a generic callee: the results have the call site's instantiated types
+	}
+	res := e.symbolicResult(s, resultType(rsig), "r_"+sanitize(con.TFn.Name()))
 	setRes(s, res)
 	penv := e.contractEnv(con, s, pre, args)
 	for k, v := range env.vars {
@@ -876,7 +901,7 @@ func (e *Exec) applyContract(s *State, con *Contract, args []Val, setRes func(*S
 			penv.vars[k] = v
 		}
 	}
-	bindResults(penv, con.Sig, res)
+	bindResults(penv, rsig, res)
 	for _, en := range con.Ensures {
 		g, facts := e.evalClause(en.Expr, penv)
 		s.pc = append(s.pc, facts...)
@@ -982,7 +1007,9 @@ func (e *Exec) assertAts(s *State, callee string, args []Val, cc *ssa.CallCommon
 			}
 			env.vars[fmt.Sprintf("$%d", i)] = TV{a, t}
 		}
-		e.prove("assert-at", fmt.Sprintf("%d", aa.Clause.Ord), aa.Clause.Tags, s, aa.Clause.Expr, env, "assert-at call "+aa.Callee+": "+aa.Clause.Src+" at "+e.posStr(token.NoPos))
+		if !aa.Assume {
+			e.prove("assert-at", fmt.Sprintf("%d", aa.Clause.Ord), aa.Clause.Tags, s, aa.Clause.Expr, env, "assert-at call "+aa.Callee+": "+aa.Clause.Src+" at "+e.posStr(token.NoPos))
+		}
 		// proved (or reported) above: from here on it is a stepping stone for later obligations
 		g, facts := e.evalClause(aa.Clause.Expr, env)
 		s.pc = append(s.pc, facts...)
@@ -1082,4 +1109,30 @@ func (e *Exec) timeZeroAxiom(tt types.Type) {
 	z := "|ext." + sanitize("(time.Time).IsZero") + "|"
 	e.decl(fmt.Sprintf("(declare-fun %s (%s) Bool)", z, strings.Join(sorts, " ")))
 	e.axiomOnce("time.iszero.zero", app(z, zt...))
+}
+
+func hasTypeParam(tu *types.Tuple) bool {
+	var has func(t types.Type, d int) bool
+	has = func(t types.Type, d int) bool {
+		if d > 4 {
+			return false
+		}
+		switch u := t.(type) {
+		case *types.TypeParam:
+			return true
+		case *types.Pointer:
+			return has(u.Elem(), d+1)
+		case *types.Slice:
+			return has(u.Elem(), d+1)
+		case *types.Map:
+			return has(u.Key(), d+1) || has(u.Elem(), d+1)
+		}
+		return false
+	}
+	for i := 0; i < tu.Len(); i++ {
+		if has(tu.At(i).Type(), 0) {
+			return true
+		}
+	}
+	return false
 }
